@@ -4,30 +4,35 @@ MqttTopics_Gen.tla (behaviour generator), MqttTopics_Trace.tla (trace validation
 from lib.vlib import jdump
 from props._mqtt import PKG, validate_traces, short
 
-INV = "INVARIANTS TypeOK RouteExact NoResidue Refines EntsAreSubs TrieEmptyIffNoSubs NoDeadNodes\nPROPERTIES Others\n"
+INV = "INVARIANTS TypeOK RouteExact NoResidue Refines EntsAreSubs SessAreSubs TrieEmptyIffNoSubs NoDeadNodes\nPROPERTIES Others ResumeKeeps\n"
 
 
-def impl_cfg(filters, pairs, maxops, partial):
+def impl_cfg(filters, pairs, maxops, partial, pairwise=True):
     return ("SPECIFICATION ISpec\nCONSTANTS\n  Clients = {\"c1\", \"c2\"}\n  Filters <- %s\n  Pairs %s\n  Topics <- CuratedTopics\n"
-            "  MaxOps = %d\n  PartialInsert = %s\nVIEW iview\n" % (filters, pairs, maxops, "TRUE" if partial else "FALSE")) + INV
+            "  MaxOps = %d\n  Persistent = {\"c2\"}\n  PartialInsert = %s\n  ResumePairwise = %s\nVIEW iview\n" % (
+                filters, pairs, maxops, "TRUE" if partial else "FALSE", "TRUE" if pairwise else "FALSE")) + INV
 
 
 GEN_CFG = ("SPECIFICATION GSpec\nCONSTANTS\n  Clients = {\"c1\", \"c2\"}\n  Filters <- CuratedFilters\n  Pairs <- CuratedPairs\n"
-           "  Topics <- CuratedTopics\n  MaxOps = 1000\n")
+           "  Topics <- CuratedTopics\n  MaxOps = 1000\n  Persistent = {\"c2\"}\n")
 
 TRACE_CFG = ("SPECIFICATION TSpec\nCONSTANTS\n  Clients = {\"c1\", \"c2\", \"c3\", \"c4\"}\n  Filters = {}\n  Pairs = {}\n  Topics = {}\n"
-             "  MaxOps = 100000000\nCONSTRAINT HWM\nPOSTCONDITION Accepted\nINVARIANT TypeOK\n")
+             "  MaxOps = 100000000\n  Persistent = {\"c3\", \"c4\"}\nCONSTRAINT HWM\nPOSTCONDITION Accepted\nINVARIANT TypeOK\n")
 
 
 def run(ctx):
-    ctx.cov["rule"] = ("behaviours = TLC -simulate runs of the routing contract (curated filters incl. malformed ones, 2 clients), "
+    ctx.cov["rule"] = ("behaviours = TLC -simulate runs of the routing contract (curated filters incl. malformed ones, 2 clients, one of "
+                       "them with a persistent session that is dropped and resumed), "
                        "replayed in lock-step on a real TopicManager+Session and on a real Broker with raw MQTT clients, every probe "
                        "topic looked up after every operation; traces = seeded random histories (4 clients, level grammar with "
                        "empty / multi-byte levels, '+', '#', malformed filters) of the real code validated by TLC; non-trivial = "
                        "behaviours/traces in which some probe is routed to somebody")
     ctx.assumptions += ["topic names contain no wildcard characters; UNSUBSCRIBE packets carry well-formed filters",
                         "the '$'-prefix rule of MQTT 3.1.1 4.7.2 is not part of the property and not checked",
-                        "disconnect = end of a cleanSession=true connection (session state across reconnects is C16)"]
+                        "disconnect = end of a session (a clean session with its connection, a persistent one by a clean takeover); "
+                        "resume = a persistent session's connection drops and the client reconnects with cleanSession=false, taken as "
+                        "one step (the schedules of teardown against reconnect are C16); the harness lets every asynchronous "
+                        "Session.store reach the storage before the next operation"]
     if ctx.phase("mc"):
         _mc(ctx)
     if ctx.phase("mbt"):
@@ -56,10 +61,37 @@ def _mc(ctx):
         ctx.notes.append("lead from TLC (model of the pinned tree): %s violated - a rejected multi-filter SUBSCRIBE leaves trie "
                          "entries that teardown does not remove; confirmed or refuted on the real code by the trace phase" % r.violated)
         ctx.log("lead: pinned-tree trie model violates %s" % r.violated)
+    # the model must be able to tell a resume that hands the QoS values out in another order from the contract
+    r = ctx.tlc_mc("MqttTopicsImpl", impl_cfg("CuratedFilters", "<- CuratedPairs", 2, False, pairwise=False), expect_ok=False, count=False,
+                   label="resume re-subscribes with permuted QoS (must be refuted)", timeout=600)
+    if r.ok:
+        ctx.inconclusive("the trie model does not distinguish a resume with permuted QoS values from the contract")
+    ctx.log("model of a resume with permuted QoS refuted: %s" % r.violated)
 
 
 def _routed(b):
     return any(rr.get("r") for st in b for rr in st.get("route", []))
+
+
+def _resumed_mixed(b):
+    """does the behaviour resume a session that holds filters with QoS 0 and with QoS 1 (tracked from the operations)?"""
+    held = {}
+    for st in b:
+        op = st.get("op")
+        if not op:
+            continue
+        c = op.get("c")
+        if op["a"] == "sub" and op["ok"]:
+            for f, q in zip(op["fs"], op["qs"]):
+                held.setdefault(c, {})[jdump(f)] = q
+        elif op["a"] == "unsub":
+            for f in op["fs"]:
+                held.get(c, {}).pop(jdump(f), None)
+        elif op["a"] in ("disc", "takeover"):
+            held.pop(c, None)
+        elif op["a"] == "resume" and len(set(held.get(c, {}).values())) > 1:
+            return True
+    return False
 
 
 def _mbt(ctx):
@@ -93,6 +125,10 @@ def _mbt(ctx):
     for b in behs:
         if _routed(b):
             ctx.nontrivial({"b": b})
+    nres = sum(1 for b in behs if _resumed_mixed(b))
+    if nres < 5 and not ctx.violations:
+        ctx.inconclusive("C14 behaviours are vacuous for resumed sessions: only %d resume a session holding filters of both QoS" % nres)
+    ctx.notes.append("%d behaviours resume a persistent session that holds filters of both QoS" % nres)
     ctx.sample({"kind": "tlc-behaviour", "steps": [short(s, 300) for s in behs[0][1:4]]})
 
 
